@@ -679,3 +679,47 @@ def run(ctx):
     _run_main2(ctx)
     extras2(ctx)
     ctx.flush()
+
+
+# ---- round-4 lesson: every array handed to the CONSTRUCTOR is owned by the object afterwards ---------------------------------------------
+
+def extras_ctor(ctx):
+    """values, response_times and smooth_fa_freqs given to the constructor are copied: editing the caller's arrays afterwards changes
+    nothing in the object (periods, smoothing frequencies, spectra regenerated later), and the object never edits them"""
+    import eqsig
+    rng = ctx.rng
+    for it in range(6 if ctx.tier == 'quick' else 40):
+        n = rng.randint(40, 200)
+        a = np.array([rng.gauss(0, 1) for _ in range(n)])
+        rt = np.array(sorted(rng.uniform(0.05, 2.0) for _ in range(rng.randint(2, 5))))
+        sf_ = np.array(sorted(rng.uniform(0.5, 20.0) for _ in range(rng.randint(3, 6))))
+        a0, rt0, sf0 = a.copy(), rt.copy(), sf_.copy()
+        obj = eqsig.AccSignal(a, 0.01, response_times=rt, smooth_fa_freqs=sf_)
+        ref = eqsig.AccSignal(a0.copy(), 0.01, response_times=rt0.copy(), smooth_fa_freqs=sf0.copy())
+        if it % 2:
+            _ = obj.s_a, obj.smooth_fa_spectrum          # caches filled before the caller edits its arrays
+        a *= 3.0
+        rt *= 2.0
+        sf_ += 1.0
+        obj.gen_response_spectrum()
+        obj.gen_smooth_fa_spectrum()
+        ok = bool(np.array_equal(obj.values, a0) and np.array_equal(np.asarray(obj.response_times), rt0) and np.array_equal(np.asarray(obj.smooth_fa_freqs), sf0) and
+                  np.array_equal(obj.s_a, ref.s_a) and np.array_equal(obj.smooth_fa_spectrum, ref.smooth_fa_spectrum))
+        ctx.hist('constructor arrays edited by the caller afterwards')
+        ctx.count_case(('ctor', a0.tobytes(), rt0.tobytes(), sf0.tobytes()), True)
+        ctx.oracle('C05.a arrays given to the constructor (values, response_times, smooth_fa_freqs) are owned by the object: later edits of the '
+                   "caller's arrays change nothing in the object", ok,
+                   {'values': a0, 'dt': 0.01, 'response_times': rt0, 'smooth_fa_freqs': sf0, 'caller_then': 'values *= 3; response_times *= 2; smooth_fa_freqs += 1'},
+                   detail={'values_kept': bool(np.array_equal(obj.values, a0)), 'response_times_kept': bool(np.array_equal(np.asarray(obj.response_times), rt0)),
+                           'smooth_fa_freqs_kept': bool(np.array_equal(np.asarray(obj.smooth_fa_freqs), sf0))})
+        ctx.oracle("C05.a the object never edits the arrays given to its constructor", bool(np.array_equal(a, a0 * 3.0) and np.array_equal(rt, rt0 * 2.0) and np.array_equal(sf_, sf0 + 1.0)),
+                   {'values': a0, 'dt': 0.01, 'response_times': rt0, 'smooth_fa_freqs': sf0})
+
+
+_run_main_ct = run
+
+
+def run(ctx):
+    _run_main_ct(ctx)
+    extras_ctor(ctx)
+    ctx.flush()
